@@ -182,6 +182,7 @@ def run(F, R):
     # ---------------------------------------------------------------- R2 handler => metadata
     R.rule("C02-R2", "RequestBuilder::build returns Some(metadata) exactly when a handler is passed (so 'handler configured, metadata missing' cannot occur)")
     lib.check_as_configured(R, "C02-R2", sm.w, sm, {"cup_handler": "cup_handler"})
+    lib.builder_setters_preserve(R, "C02-R2", sm.w, sm.c, ["cup_handler"])
     bi_ = lib.one(R, "C02-R2", c, "RequestBuilder::build_intermediate", item="build_intermediate", impl_self="request_builder::RequestBuilder")
     if bi_:
         from .. import optnorm, flow as _flow, terms as _terms
